@@ -56,6 +56,37 @@ def build(key, variant, i):
             kw['components'] = []
         obj = descriptors.SegmentationDescriptor(**kw)
         parse = None
+    elif qual == 'MpegSectionTable.encode':
+        from dashlive.scte35.binarysignal import BinarySignal
+        from dashlive.utils.buffered_reader import BufferedReader
+        seg = descriptors.SegmentationDescriptor(
+            segmentation_event_id=g('segmentation_event_id'), delivery_not_restricted_flag=b('delivery_not_restricted'),
+            web_delivery_allowed_flag=b('web_delivery_allowed'), no_regional_blackout_flag=b('no_regional_blackout'),
+            archive_allowed_flag=b('archive_allowed'), device_restrictions=g('device_restrictions'),
+            segmentation_duration=None if b('duration_none') else g('segmentation_duration'),
+            segmentation_type=g('segmentation_type'), segment_num=g('segment_num'), segments_expected=g('segments_expected'),
+            sub_segment_num=g('sub_segment_num'), sub_segments_expected=g('sub_segments_expected'))
+        sig = BinarySignal(
+            sap_type=g('sap_type'), protocol_version=g('protocol_version'), encryption_algorithm=g('encryption_algorithm'),
+            pts_adjustment=g('pts_adjustment'), cw_index=g('cw_index'), tier=g('tier'),
+            splice_insert=SpliceInsert(splice_event_id=g('splice_event_id'), out_of_network_indicator=b('out_of_network'),
+                                       splice_immediate_flag=b('immediate'), splice_time={'pts': g('pts')},
+                                       break_duration={'auto_return': b('auto_return'), 'duration': g('duration')},
+                                       unique_program_id=g('unique_program_id'), avail_num=g('avail_num'),
+                                       avails_expected=g('avails_expected')),
+            descriptors=[seg])
+        env['self'] = sig
+        import copy
+        old = dict(env, self=copy.deepcopy(sig))
+
+        def call_signal():
+            data = sig.encode()
+            st['written'] = 8 * len(data)
+            src = BufferedReader(None, data=data)
+            rv = BinarySignal.parse(src, size=len(data))
+            st['reader'] = NS(bitpos=lambda: 8 * src.tell())
+            return rv
+        return {'env': env, 'old_env': old, 'call': call_signal}
     elif qual == 'TimeDescriptor.encode_fields':
         obj = descriptors.TimeDescriptor(TAI_seconds=g('TAI_seconds'), TAI_ns=g('TAI_ns'), UTC_offset=g('UTC_offset'))
         parse = None
